@@ -144,6 +144,10 @@ pub struct Stats {
     model_cases: usize,
     exact_cases: usize,
     differing_outputs: usize,
+    event_cases: usize,
+    event_records: usize,
+    obb_records: usize,
+    obb_record_mismatch: usize,
 }
 
 fn coq_bits(xs: &[u64]) -> String {
@@ -375,6 +379,67 @@ pub fn drive(header: &str, run_fn: &str) {
                 }
             }
         }
+        // the records of k-means' own iterations (present only when /repo has them: feature-detected): one more
+        // run under pool 4 with an empty trace; the records are made by the sequential driver code, in program order
+        let _ = coupe::verif::drain();
+        let mut events_coq = "None".to_string();
+        if model {
+            let (pts2, ws2, p2) = (pts.clone(), ws.clone(), p0.clone());
+            let res = guarded(4, Duration::from_secs(120), move || {
+                let mut p = p2;
+                let mut km = coupe::KMeans {
+                    imbalance_tol,
+                    delta_threshold: delta,
+                    max_iter,
+                    max_balance_iter,
+                    erode,
+                    hilbert,
+                    mbr_early_break: early,
+                };
+                if d == 2 {
+                    let v: Vec<coupe::Point2D> = pts2.iter().map(|q| coupe::Point2D::new(q[0], q[1])).collect();
+                    km.partition(&mut p, (&v[..], &ws2[..])).unwrap();
+                } else {
+                    let v: Vec<coupe::Point3D> = pts2.iter().map(|q| coupe::Point3D::new(q[0], q[1], q[2])).collect();
+                    km.partition(&mut p, (&v[..], &ws2[..])).unwrap();
+                }
+            });
+            let recs = coupe::verif::drain();
+            let canon = |b: u64| -> u64 {
+                // any NaN -> the canonical quiet NaN of Lib/SFloat.v
+                if (b & 0x7ff0_0000_0000_0000) == 0x7ff0_0000_0000_0000 && (b & 0x000f_ffff_ffff_ffff) != 0 {
+                    0x7ff8_0000_0000_0000
+                } else {
+                    b
+                }
+            };
+            if matches!(res, Guarded::Done(())) && recs.iter().any(|(k, _)| *k == "kmeans_assign") {
+                let mut items: Vec<String> = Vec::new();
+                for (k, data) in recs.iter() {
+                    match *k {
+                        "kmeans_assign" => items.push(format!("(0%N, {})", coq_nlist(data.iter().map(|x| *x as u128)))),
+                        "kmeans_bounds" => items.push(format!("(1%N, {})", coq_nlist(data.iter().map(|x| canon(*x) as u128)))),
+                        "kmeans_influences" => items.push(format!("(2%N, {})", coq_nlist(data.iter().map(|x| canon(*x) as u128)))),
+                        _ => {}
+                    }
+                }
+                // the implementation's own rotation matrix (columns) against the one handed to the model
+                if let Some(rows) = &rot {
+                    for (_, data) in recs.iter().filter(|(k, _)| *k == "kmeans_obb") {
+                        stats.obb_records += 1;
+                        // (M * e_j loses the sign of a zero entry: (-0.0) * 1 + x * 0 = +0.0)
+                        let z = |b: u64| if b << 1 == 0 { 0 } else { b };
+                        let same = (0..d).all(|i| (0..d).all(|j| data.get(j * d + i).map(|b| z(*b)) == Some(z(rows[i][j]))));
+                        if !same {
+                            stats.obb_record_mismatch += 1;
+                        }
+                    }
+                }
+                events_coq = format!("(Some [{}])", items.join(";"));
+                stats.event_cases += 1;
+                stats.event_records += items.len();
+            }
+        }
         if model {
             stats.model_cases += 1;
         }
@@ -390,7 +455,7 @@ pub fn drive(header: &str, run_fn: &str) {
             None => "None".to_string(),
         };
         let coq = format!(
-            "mkKM {} ([{}] : list (list N)) {} {} {} {} {} {} {} {} {} {} {} {} {} [{}] [{}]",
+            "mkKM {} ([{}] : list (list N)) {} {} {} {} {} {} {} {} {} {} {} {} {} [{}] [{}] {}",
             d,
             pts_coq.join(";"),
             coq_bits(&ws.iter().map(|x| x.to_bits()).collect::<Vec<_>>()),
@@ -407,7 +472,8 @@ pub fn drive(header: &str, run_fn: &str) {
             coq_bool(exact),
             coq_bool(contract),
             impls_coq.join(";"),
-            prefix_coq.join(";")
+            prefix_coq.join(";"),
+            events_coq
         );
         let params = format!(
             "\"max_iter\":{max_iter},\"max_balance_iter\":{max_balance_iter},\"imbalance_tol\":{imbalance_tol:?},\"delta_threshold\":{delta:?},\"erode\":{erode},\"hilbert\":{hilbert},\"mbr_early_break\":{early}"
@@ -442,7 +508,7 @@ pub fn drive(header: &str, run_fn: &str) {
         }
     }
     w.finish(&format!(
-        "\"hangs\":{},\"panics\":{},\"rot_validated\":{},\"rot_mismatch\":{},\"rot_none\":{},\"model_cases\":{},\"exact_cases\":{},\"differing_outputs\":{}",
-        stats.hangs, stats.panics, stats.rot_validated, stats.rot_mismatch, stats.rot_none, stats.model_cases, stats.exact_cases, stats.differing_outputs
+        "\"hangs\":{},\"panics\":{},\"rot_validated\":{},\"rot_mismatch\":{},\"rot_none\":{},\"model_cases\":{},\"exact_cases\":{},\"differing_outputs\":{},\"event_cases\":{},\"event_records\":{},\"obb_records\":{},\"obb_record_mismatch\":{}",
+        stats.hangs, stats.panics, stats.rot_validated, stats.rot_mismatch, stats.rot_none, stats.model_cases, stats.exact_cases, stats.differing_outputs, stats.event_cases, stats.event_records, stats.obb_records, stats.obb_record_mismatch
     ));
 }
